@@ -65,7 +65,7 @@ pub fn psource_of(s: &Value, k: usize) -> PSource {
 	let mut raw = HashMap::new();
 	for t in &src.tiles {
 		let (size, compr) = class_of(&case, t.3);
-		raw.insert(payload(t.3, size, compr), t.3);
+		raw.insert(payload_c(t.3, size, compr), t.3);
 	}
 	let mut mem = src.mem_reader();
 	mem.name = format!("src{k}");
